@@ -23,7 +23,8 @@ func RunSmoke(r *sim.Run) {
 	w.Boundary()
 	body := genBytes(1, 200000)
 	third := len(body) / 3
-	w.SetScript("s1", &Script{Status: 418, Header: http.Header{}, Body: body}); _ = third
+	w.SetScript("s1", &Script{Status: 418, Header: http.Header{}, Body: body})
+	_ = third
 	q := &Req{ID: "s1", Host: "alpha:6443", Method: "PATCH", Target: "/api/v1/namespaces/ns1/pods/x", Body: genBytes(2, 100)}
 	w.Send(q)
 	r.Logf("after send: done=%v status=%d raw=%d", q.Done, q.Status, q.Raw.Len())
